@@ -198,8 +198,9 @@ def decode_bound(b, uni=None):
     raise V.Unencodable(b)
 
 
-def show_result(uni, sol, errors):
-    """Canonical text of what resolve_bounds_map returned for T, in the driver's format."""
+def show_result(uni, sol, errors, objs=()):
+    """Canonical text of what resolve_bounds_map returned for T, in the driver's format. An `Any` solution is tagged
+    `value` when it is (identically) one of the bound values, else by its AnySource."""
     from pyanalyze import value as PV
     if errors:
         e = errors[0]
@@ -210,7 +211,9 @@ def show_result(uni, sol, errors):
         return "UNENC:%s" % (e,)
     src = "value"
     if isinstance(sol, PV.AnyValue):
-        src = {"generic_argument": "generic", "inference": "inference"}.get(sol.source.name, "value")
+        own = [getattr(o, "value", None) for o in objs] + [c for o in objs for c in getattr(o, "constraints", ())]
+        if not any(sol is v for v in own):
+            src = {"generic_argument": "generic", "inference": "inference"}.get(sol.source.name, "source:" + sol.source.name)
     return "ok %s %s" % (src, V.ty_sexp(t))
 
 
@@ -258,7 +261,9 @@ def distinct_perms(bs):
 def evaluate(ctx, multisets, with_model=True, uni=None, stream="solve", sample_every=997):
     """multisets: list of lists of bound terms. Solves each in every distinct permutation."""
     from pyanalyze import value as PV
-    uni = uni or Universe()
+    default_uni = uni or Universe()
+    unis = [m[0] if isinstance(m, tuple) else default_uni for m in multisets]
+    multisets = [m[1] if isinstance(m, tuple) else m for m in multisets]
     checker = pya.make_checker()
     jobs = []      # (multiset index, perm, bounds in that order)
     for mi, bs in enumerate(multisets):
@@ -268,18 +273,19 @@ def evaluate(ctx, multisets, with_model=True, uni=None, stream="solve", sample_e
         return
     reports = None
     if with_model:
-        out = lean.run_driver("C15", ["%s %s" % (uni.prefix("resolve"), bounds_text(pb)) for _, _, pb in jobs])
+        out = lean.run_driver("C15", ["%s %s" % (unis[mi].prefix("resolve"), bounds_text(pb)) for mi, _, pb in jobs])
         reports = [parse_report(l) for l in out]
     pending = []   # candidates waiting for the expensive class: dict(case, what, kind, conforms, cheap, lines)
     by_ms = {}
     objs_of = {}
     for ji, (mi, p, pb) in enumerate(jobs):
         bs = multisets[mi]
+        uni = unis[mi]
         if mi not in objs_of:
             objs_of[mi] = [uni.bound(b) for b in bs]   # one fresh Value per bound occurrence, shared by the permutations
         objs = [objs_of[mi][i] for i in p]
         sol, errors, exc = impl_resolve(uni, checker, objs)
-        impl = exc or show_result(uni, sol, errors)
+        impl = exc or show_result(uni, sol, errors, objs)
         rep = reports[ji] if reports else None
         conforms = True
         kinds = {b[0] for b in pb}
@@ -330,8 +336,9 @@ def evaluate(ctx, multisets, with_model=True, uni=None, stream="solve", sample_e
             ctx.tag("fail_" + kind)
             case = {"stream": stream, "bounds": pb, "text": bounds_text(pb), "kind": kind, "solution": impl, "tab": uni.tab}
             pending.append(dict(case=case, what=what, kind=kind, conforms=conforms, cheap=rep["D"] if rep and "D" in rep else [],
-                                perms=[pb]))
+                                perms=[pb], uni=uni))
     for mi, st in by_ms.items():
+        uni = unis[mi]
         if st["ok"] is not None and st["err"] is not None:
             ctx.tag("fail_order")
             (pb1, c1, d1, i1), (pb2, c2, d2, i2) = st["ok"], st["err"]
@@ -339,8 +346,8 @@ def evaluate(ctx, multisets, with_model=True, uni=None, stream="solve", sample_e
                     "bounds2": pb2, "verdicts": [i1, i2], "tab": uni.tab}
             pending.append(dict(case=case, what="accepted in the order [%s] (%s) but diagnosed in the order [%s]" % (
                 bounds_text(pb1), i1, bounds_text(pb2)), kind="order", conforms=c1 and c2, cheap=sorted(set(d1) | set(d2)),
-                perms=[pb1, pb2]))
-    classify(ctx, pending, with_model, uni, stream)
+                perms=[pb1, pb2], uni=uni))
+    classify(ctx, pending, with_model, default_uni, stream)
 
 
 def classify(ctx, pending, with_model, uni, stream):
@@ -355,7 +362,7 @@ def classify(ctx, pending, with_model, uni, stream):
         lines, owner = [], []
         for c in need:
             for pb in c["perms"]:
-                lines.append("%s %s" % (uni.prefix("d15"), bounds_text(pb)))
+                lines.append("%s %s" % (c.get("uni", uni).prefix("d15"), bounds_text(pb)))
                 owner.append(c)
         out = lean.run_driver("C15", lines)
         for c, l in zip(owner, out):
@@ -397,18 +404,44 @@ def random_value(rng, pool):
     return INT
 
 
+_REL = {}
+
+
+def pool_relation():
+    """is_assignable on the pool (computed once): used only to *bias* the generator towards satisfiable multisets"""
+    if not _REL:
+        ck = pya.make_checker()
+        vals = [V.ty_to_value(t) for t in POOL]
+        for i, a in enumerate(vals):
+            for j, b in enumerate(vals):
+                try:
+                    _REL[i, j] = b.is_assignable(a, ck)   # POOL[i] may be assigned to POOL[j]
+                except Exception:  # noqa: BLE001
+                    _REL[i, j] = False
+    return _REL
+
+
 def random_multiset(rng, maxn, malformed=False):
     n = rng.choice([k for k in (2, 3, 3, 3, 4, 4, 4, 5) if k <= maxn])
     # a multiset draws from a small sub-pool so that comparable / equal / incomparable values meet often
     sub = [random_value(rng, POOL) for _ in range(rng.choice([2, 3, 3, 4]))]
+    lo_pool = up_pool = sub
+    if rng.random() < 0.6:
+        # around a pivot: lower bounds mostly from below it, upper bounds mostly from above it
+        rel = pool_relation()
+        p = rng.randrange(len(POOL))
+        below = [POOL[i] for i in range(len(POOL)) if rel[i, p] and POOL[i] != ANY]
+        above = [POOL[j] for j in range(len(POOL)) if rel[p, j] and POOL[j] != ANY]
+        lo_pool = below + sub[:1]
+        up_pool = above + sub[:1]
     oneof = None
     bs = []
     for _ in range(n):
         r = rng.random()
         if r < 0.5:
-            bs.append(("L", rng.choice(sub)))
+            bs.append(("L", rng.choice(lo_pool)))
         elif r < 0.85:
-            bs.append(("U", rng.choice(sub)))
+            bs.append(("U", rng.choice(up_pool)))
         elif r < 0.97:
             if oneof is None or malformed:
                 oneof = ("O", rng.choice(CONSTRAINT_LISTS) if rng.random() < 0.7 else [rng.choice(sub) for _ in range(rng.randint(0 if malformed else 1, 3))])
@@ -424,7 +457,7 @@ def gen_multisets(ctx):
     rng = ctx.rng
     out = exhaustive_multisets()
     ctx.tag("multisets_exhaustive", len(out))
-    n = ctx.n(1100, 22000)
+    n = ctx.n(2200, 45000)
     for _ in range(n):
         bs = random_multiset(rng, 5)
         if not risky([v for b in bs for v in bound_values(b)]):
@@ -450,7 +483,7 @@ def gen_abstract(ctx):
     """(matrix, multisets) groups: random relations on n mock values"""
     rng = ctx.rng
     groups = []
-    for g in range(ctx.n(40, 600)):
+    for g in range(ctx.n(150, 2500)):
         n = rng.choice([3, 4, 4, 5])
         mode = rng.random()
         if mode < 0.4:      # a random preorder: reflexive-transitive closure of a random DAG
@@ -526,7 +559,7 @@ E2E_VARS = [  # (expression, annotation or None for a literal)
     ("vli", "list[int]"), ("vls", "list[str]"), ("vlb", "list[bool]"), ("vany", "Any"), ("vlany", "list[Any]"), ("vlst", "list"),
     ("vios", "int | str"), ("vn", "None"), ("vdsi", "dict[str, int]"), ("vdis", "dict[int, str]"), ("vby", "bytes"),
     ("1", None), ("True", None), ("'a'", None), ("None", None), ("1.5", None),
-    ("fis", None), ("fsi", None), ("fbi", None), ("foi", None),
+    ("fis", None), ("fsi", None), ("fbi", None), ("foi", None), ("fii", None),
 ]
 E2E_PRELUDE = """\
 from typing import Any, Callable, Sequence, TypeVar
@@ -539,6 +572,8 @@ def fbi(x: bool) -> int:
     raise NotImplementedError
 def foi(x: object) -> int:
     raise NotImplementedError
+def fii(x: int) -> int:
+    raise NotImplementedError
 """
 # shape: list of (parameter annotation with {T} {K} {V} {U}, argument class), return annotation, TypeVar declarations
 E2E_SHAPES = {
@@ -550,6 +585,7 @@ E2E_SHAPES = {
     "dict[K,V],K,V": (["dict[{K}, {V}]", "{K}", "{V}"], "dict[{K}, {V}]", {"K": "", "V": ""}),
     "Callable[[T],U],T": (["Callable[[{T}], {U}]", "{T}"], "{U}", {"T": "", "U": ""}),
     "Callable[[T],U],Callable[[T],U],T": (["Callable[[{T}], {U}]", "Callable[[{T}], {U}]", "{T}"], "{U}", {"T": "", "U": ""}),
+    "3xCallable[[T],int],T": (["Callable[[{T}], int]", "Callable[[{T}], int]", "Callable[[{T}], int]", "{T}"], "{T}", {"T": ""}),
     "bound=int": (["{T}", "{T}"], "{T}", {"T": ", bound=int"}),
     "bound=A": (["{T}", "{T}", "{T}"], "{T}", {"T": ", bound=A"}),
     "bound=int,list": (["{T}", "list[{T}]"], "{T}", {"T": ", bound=int"}),
@@ -565,6 +601,7 @@ ARGS_FOR = {
     "{K}": ["vi", "vs", "vb", "vany", "'a'", "1"],
     "{V}": ["vi", "vs", "vb", "vany", "'a'", "1"],
     "Callable[[{T}], {U}]": ["fis", "fsi", "fbi", "foi", "vany"],
+    "Callable[[{T}], int]": ["fsi", "fbi", "foi", "fii", "vany"],
 }
 
 
@@ -576,7 +613,7 @@ def gen_e2e(ctx):
     for a in small:
         for b in small:
             cases.append(("T,T", [a, b]))
-    for _ in range(ctx.n(260, 4000)):
+    for _ in range(ctx.n(300, 5000)):
         name = rng.choice(list(E2E_SHAPES))
         params = E2E_SHAPES[name][0]
         cases.append((name, [rng.choice(ARGS_FOR[p]) for p in params]))
@@ -617,10 +654,15 @@ def run_e2e(ctx, cases, with_model=True):
 
         def recorder(bounds_map, ctx_, **kw):
             tv_map, errors = orig(bounds_map, ctx_, **kw)
+            k = 0   # errors are appended in the iteration order of the failing type variables
             for tv, bounds in bounds_map.items():
+                sol = tv_map.get(tv)
+                failed = isinstance(sol, PV.AnyValue) and sol.source is PV.AnySource.error
+                own = [errors[k]] if failed and k < len(errors) else []
+                k += int(failed)
                 n = getattr(tv, "__name__", None)
                 if n is not None:
-                    records[n] = (list(bounds), tv_map.get(tv), list(errors))
+                    records[n] = (list(bounds), sol, own)
             return tv_map, errors
 
         SIG.resolve_bounds_map = recorder
@@ -658,7 +700,7 @@ def run_e2e(ctx, cases, with_model=True):
                     if n in records:
                         bounds, sol, errors = records[n]
                         try:
-                            recs[role] = ([decode_bound(x) for x in bounds], sol, errors)
+                            recs[role] = ([decode_bound(x) for x in bounds], sol, errors, bounds)
                         except V.Unencodable:
                             recs[role] = None
                 decoded.append((p, verdict, codes, rev, recs))
@@ -715,8 +757,8 @@ def e2e_unit(ctx, recs, owners, with_model, checker):
         out = lean.run_driver("C15", ["resolve %s" % bounds_text(r[0]) for r in recs])
         reports = [parse_report(l) for l in out]
     pending = []
-    for i, ((pb, sol, errors), owner) in enumerate(zip(recs, owners)):
-        impl = show_result(uni, sol, errors)
+    for i, ((pb, sol, errors, objs), owner) in enumerate(zip(recs, owners)):
+        impl = show_result(uni, sol, errors, objs)
         conforms = True
         ctx.count(1, e2e_solves=1)
         if reports is not None and not impl.startswith("UNENC") and not risky([v for b in pb for v in bound_values(b)]):
@@ -725,6 +767,11 @@ def e2e_unit(ctx, recs, owners, with_model, checker):
                 conforms = False
                 ctx.disagree("e2e", dict(owner, bounds=pb, text=bounds_text(pb)), impl, reports[i]["raw"])
         if errors or sol is None:
+            continue
+        if owner.get("verdict") != "accepted":
+            # the property speaks about accepted calls: after solving, check_call_with_bound_args re-checks every argument
+            # against the substituted parameter type, so a solution that misses a bound is diagnosed at the call
+            ctx.tag("e2e_call_diagnosed_after_solve")
             continue
         vals = [uni.bound(b) for b in pb]
         seen = set()
@@ -776,8 +823,11 @@ def run_all(ctx, with_model):
     mal = gen_malformed(ctx)
     sub = Sub(ctx)
     evaluate(sub, mal, with_model, stream="malformed", sample_every=10 ** 9)
+    items = []
     for tab, group in gen_abstract(ctx):
-        evaluate(ctx, group, with_model, uni=Universe(tab), stream="abstract", sample_every=10 ** 9)
+        u = Universe(tab)
+        items += [(u, bs) for bs in group]
+    evaluate(ctx, items, with_model, stream="abstract", sample_every=1499)
     run_gen(ctx, with_model)
     run_e2e(ctx, gen_e2e(ctx), with_model)
 
